@@ -18,7 +18,7 @@ from . import c03
 
 PROPERTY = "C30"
 LEVEL = "exploration"
-BUDGET = dict(quick=45, thorough=900)
+BUDGET = dict(quick=35, thorough=900)
 MAX_RUNS = dict(quick=3000, thorough=10 ** 7)
 RULE = ("as C03, with TabulatorAll(mode='grid'): every factorisation of the drawn grid, drawn FFT library, serial or simulated "
         "ray (arrival order of per-K blocks drawn), irreducible K-points on C3z-symmetric models; distinct = distinct (system, "
